@@ -342,9 +342,64 @@ def rule_upscale(F, R):
             "scaling pairs are built from mismatched statistics/modes: %s" % binds)
 
 
+def _conjuncts(n):
+    n = skip(n)
+    while n["k"] in ("paren",) and n.get("c"):
+        n = skip(n["c"][0])
+    if n["k"] == "bin" and n["op"] == "&&":
+        return _conjuncts(n["c"][0]) + _conjuncts(n["c"][1])
+    return [n]
+
+
+def _peel(n):
+    n = skip(n)
+    while n is not None and n["k"] in ("cast", "paren") and n.get("c"):
+        n = skip(n["c"][0])
+    return n
+
+
+def _shape_test(n):
+    """`<container>.size() {<,<=,!=,==} <integer literal>` (either orientation): a test of the number of columns, not of their values"""
+    if n["k"] != "bin" or n["op"] not in ("<", "<=", "!=", "=="):
+        return False
+    a, b = _peel(n["c"][0]), _peel(n["c"][1])
+    for u, v in ((a, b), (b, a)):
+        if u["k"] == "int" and v["k"] == "call" and callee(v).split("::")[-1].split("<")[0] in ("size", "rows", "cols") and len(args(v)) == 0:
+            return True
+    return False
+
+
+def rule_unconditional(F, R):
+    """R-C14-8: scalar_stats_t::scale / upscale apply the mode's kernel to every column unconditionally; the affine form handed to
+    nano::upscale therefore has to be produced unconditionally as well - the only admissible guards in make_scaling / nano::upscale are
+    the mode switch and tests of the number of columns (an empty statistics object has nothing to scale)"""
+    fs = [f for f in F.in_file(FILE) if f.name == "make_scaling" or f.qn == "nano::upscale"]
+    n = 0
+    for f in fs:
+        mode = [p_ for p_ in f.params if "scaling_type" in (p_.get("t") or "")]
+        for x in f.nodes():
+            if x["k"] == "switch":
+                subj = _peel(x["c"][x["r"].index("cond")] if "r" in x and "cond" in x["r"] else x["c"][0])
+                n += 1
+                R.check(subj is not None and subj["k"] == "ref" and subj.get("d") in [p_["d"] for p_ in mode], "R-C14-8", "%s switch@%d" % (f.name, x["l"]), f.loc(x),
+                        "the dispatch is on the scaling mode only", "the affine form is selected by `%s`, not by the scaling mode" % pp(subj))
+            if x["k"] in ("if", "cond"):
+                cnd = x["c"][x["r"].index("cond")] if "r" in x and "cond" in x["r"] else x["c"][0]
+                if x["k"] == "cond" and any(y["k"] == "call" and "__assert" in callee(y) for y in walk(x)):
+                    continue        # an expanded assert() (present only without NDEBUG)
+                for cj in _conjuncts(cnd):
+                    n += 1
+                    R.check(_shape_test(cj), "R-C14-8", "%s guard@%d `%s`" % (f.name, x["l"], pp(cj)[:50]), f.loc(x),
+                            "the guard tests only the number of columns (scale()/upscale() apply the kernel to every column unconditionally)",
+                            "the affine form (w, b) is bypassed under the value-dependent condition `%s` while scalar_stats_t::scale still applies the mode's kernel: "
+                            "the un-scaled linear model is then a different predictor" % pp(cj))
+    R.floor("R-C14-8", n, 2, "guards of the affine conversion")
+
+
 def run(ctx):
     R = ctx.report
     F = ctx.facts(TUS)
     rule_modes(F, R)
     rule_done(F, R)
     rule_upscale(F, R)
+    rule_unconditional(F, R)
